@@ -45,7 +45,7 @@ ASSUMPTIONS = [
     "side effects of comparisons on their operands, and the derived operators <, >, >=, are not part of the statement",
 ]
 
-N_PAIRS = {"quick": 20000, "thorough": 320000}
+N_PAIRS = {"quick": 20000, "thorough": 1280000}
 
 
 def plan(tier, seed):
